@@ -131,6 +131,10 @@ def gen(rng, n, mode):
             if rng.random() < 0.7:
                 opts["ScaleX"] = rng.choice([100, 50, 200, 25, -100, 400, 12.5])
                 opts["ScaleY"] = rng.choice([100, 50, 200, 100, -50])
+                if rng.random() < 0.04:
+                    # a singular filter matrix: TransformPointPen inverts it eagerly -> ZeroDivisionError on the first
+                    # included non-empty glyph
+                    opts[rng.choice(["ScaleX", "ScaleY"])] = 0
             opts["Origin"] = rng.choice([4, 4, 0, 1, 2, 3])
             for g in fd["glyphs"]:
                 if rng.random() < 0.4:
